@@ -43,6 +43,7 @@ GENERATORS = [
     ('gen_py_combinators', 'PyCombinators.lean'),
     ('gen_py_handlers', 'PyHandlers.lean'),
     ('gen_py_popen', 'PyPseudoOpen.lean'),
+    ('gen_py_attrs', 'PyAttrs.lean'),
 ]
 
 
